@@ -314,6 +314,8 @@ class Built:
 
     def _effect(self, name, owner):
         """A constant callable effect, or ("ep") an effect step whose parameter is Option('EP')."""
+        if name == "le":
+            return self._log_effect(owner)
         if name != "ep":
             return self.fn("effect", name, owner)
         log = self.log
@@ -322,6 +324,30 @@ class Built:
             log.append(("effect", "ep", (value, p), owner))
 
         return self.lab.pipeline_step(ep)
+
+    _LE_SEQ = [0]
+
+    def _log_effect(self, owner):
+        """LogEffect(INFO, <a logger of this graph>, "LE<owner>"); a record that reaches the logger is entered
+        in the graph's log as an effect run of the owner."""
+        import logging
+
+        from labrea.logging import LogEffect
+
+        Built._LE_SEQ[0] = (Built._LE_SEQ[0] + 1) % 4096
+        name = "verif.effect.g%d" % Built._LE_SEQ[0]
+        log = self.log
+
+        class H(logging.Handler):
+            def emit(self, record):
+                log.append(("effect", "le", (), int(record.getMessage()[2:])))
+
+        lg = logging.getLogger(name)
+        if not getattr(self, "_le_logger", None):
+            lg.handlers[:] = [H(level=0)]
+            lg.setLevel(0)
+            self._le_logger = name
+        return LogEffect(logging.INFO, self._le_logger, "LE%d" % owner)
 
     def register(self, tab, entry):
         owner = self.obj[self.tabowner[tab]]
